@@ -815,8 +815,14 @@ impl<T> TooDee<T> {
     {
         assert!(index < self.num_cols);
 
-        let v = &mut self.data;
         let num_cols = self.num_cols;
+        let num_rows = self.num_rows;
+        // The array is empty for as long as the `DrainCol` exists (it is mutably borrowed, so
+        // nobody can look). If the drain is leaked the array stays empty, which is consistent
+        // with the zeroed vector length below. `DrainCol::drop` restores the dimensions.
+        self.num_cols = 0;
+        self.num_rows = 0;
+        let v = &mut self.data;
         let slice_len = v.len() - num_cols + 1;
         unsafe {
             // set the vec length to 0 to amplify any leaks
@@ -827,6 +833,8 @@ impl<T> TooDee<T> {
                    v : slice::from_raw_parts_mut(v.as_mut_ptr().add(index), slice_len),
                },
                col : index,
+               num_cols,
+               num_rows,
                toodee : NonNull::from(self),
             }
         }
@@ -1030,6 +1038,9 @@ pub struct DrainCol<'a, T> {
     /// Current remaining elements to remove
     iter: Col<'a, T>,
     col: usize,
+    /// Dimensions of the array before the column was removed
+    num_cols: usize,
+    num_rows: usize,
     toodee: NonNull<TooDee<T>>,
 }
 
@@ -1083,10 +1094,10 @@ impl<T> Drop for DrainCol<'_, T> {
 
                     let mut dest = vec.as_mut_ptr().add(col);
                     let mut src = dest.add(1);
-                    let orig_cols = toodee.num_cols;
+                    let orig_cols = self.0.num_cols;
                     let new_cols = orig_cols - 1;
                     
-                    let num_rows = toodee.num_rows;
+                    let num_rows = self.0.num_rows;
                     
                     for _ in 1..num_rows {
                         ptr::copy(src, dest, new_cols);
@@ -1096,10 +1107,8 @@ impl<T> Drop for DrainCol<'_, T> {
                     
                     ptr::copy(src, dest, orig_cols - col - 1);
                     
-                    toodee.num_cols -= 1;
-                    if toodee.num_cols == 0 {
-                        toodee.num_rows = 0;
-                    }
+                    toodee.num_cols = new_cols;
+                    toodee.num_rows = if new_cols == 0 { 0 } else { num_rows };
 
                     // Set the new length based on the col/row counts
                     vec.set_len(toodee.num_cols * toodee.num_rows);
